@@ -51,21 +51,28 @@ PopEvery(fs, ts) == IF fs = <<>> THEN [s |-> fs, t |-> ts] ELSE LET r == PopOnce
 
 BInit == stack = <<>> /\ tops = <<>> /\ last = "none"
 
-Fail == last' = "err" /\ UNCHANGED <<stack, tops>>
-Push(kind, key) == IF KeyErr(key) THEN Fail
-                   ELSE /\ stack' = Append(stack, [kind |-> kind, key |-> key, val |-> IF kind = "obj" THEN EObj ELSE EArr])
-                        /\ last' = "ok" /\ UNCHANGED tops
-Object(key) == Push("obj", key)
-Array(key)  == Push("arr", key)
-Value(x, key) == IF KeyErr(key) THEN Fail
-                 ELSE LET r == Attach(stack, tops, key, x) IN stack' = r.s /\ tops' = r.t /\ last' = "ok"
-Pop    == LET r == PopOnce(stack, tops) IN stack' = r.s /\ tops' = r.t /\ last' = "ok"
-PopAll == LET r == PopEvery(stack, tops) IN stack' = r.s /\ tops' = r.t /\ last' = "ok"
-Reset  == stack' = <<>> /\ tops' = <<>> /\ last' = "ok"
+\* the effect of one call on (frames, items): [s |-> frames, t |-> items, o |-> "ok" | "err"]; a failed call changes nothing
+Apply(cl, fs, ts) ==
+   LET keyErr == IF cl.key # <<>> THEN fs = <<>> \/ fs[Len(fs)].kind = "arr" ELSE fs # <<>> /\ fs[Len(fs)].kind = "obj"
+       ok(r)  == [s |-> r.s, t |-> r.t, o |-> "ok"] IN
+   IF cl.op \in {"Object", "Array", "Value"} /\ keyErr THEN [s |-> fs, t |-> ts, o |-> "err"]
+   ELSE IF cl.op = "Object" THEN [s |-> Append(fs, [kind |-> "obj", key |-> cl.key, val |-> EObj]), t |-> ts, o |-> "ok"]
+   ELSE IF cl.op = "Array" THEN [s |-> Append(fs, [kind |-> "arr", key |-> cl.key, val |-> EArr]), t |-> ts, o |-> "ok"]
+   ELSE IF cl.op = "Value" THEN ok(Attach(fs, ts, cl.key, cl.x))
+   ELSE IF cl.op = "Pop" THEN ok(PopOnce(fs, ts))
+   ELSE IF cl.op = "PopAll" THEN ok(PopEvery(fs, ts))
+   ELSE [s |-> <<>>, t |-> <<>>, o |-> "ok"]                                                               \* Reset
 
-\* a call record: [op, key, x]
-Do(cl) == CASE cl.op = "Object" -> Object(cl.key) [] cl.op = "Array" -> Array(cl.key) [] cl.op = "Value" -> Value(cl.x, cl.key)
-            [] cl.op = "Pop" -> Pop [] cl.op = "PopAll" -> PopAll [] cl.op = "Reset" -> Reset
+Do(cl) == LET r == Apply(cl, stack, tops) IN stack' = r.s /\ tops' = r.t /\ last' = r.o
+\* one action per API call
+Object(key)   == Do([op |-> "Object", key |-> key, x |-> Null])
+Array(key)    == Do([op |-> "Array", key |-> key, x |-> Null])
+Value(x, key) == Do([op |-> "Value", key |-> key, x |-> x])
+Pop    == Do([op |-> "Pop", key |-> <<>>, x |-> Null])
+PopAll == Do([op |-> "PopAll", key |-> <<>>, x |-> Null])
+Reset  == Do([op |-> "Reset", key |-> <<>>, x |-> Null])
+Call(cl) == CASE cl.op = "Object" -> Object(cl.key) [] cl.op = "Array" -> Array(cl.key) [] cl.op = "Value" -> Value(cl.x, cl.key)
+              [] cl.op = "Pop" -> Pop [] cl.op = "PopAll" -> PopAll [] cl.op = "Reset" -> Reset
 
 \* the observation Result(): defined when nothing was pushed (nil) or when the first item is complete; D1 otherwise
 ResultDefined(fs, ts) == ts # <<>> \/ fs = <<>>
